@@ -26,7 +26,7 @@ def run_check(prop, tier, scratch, extra_env=None):
     t0 = time.time()
     p = subprocess.run([os.path.join(VERIF, "check"), prop, tier], cwd=VERIF, env=env, stdout=subprocess.PIPE,
                        stderr=subprocess.STDOUT, text=True)
-    lines = [l for l in p.stdout.splitlines() if l.startswith(("VIOLATION", "  mechanism", "INCONCLUSIVE", "KNOWN"))]
+    lines = [l for l in p.stdout.splitlines() if l.startswith(("VIOLATION", "  mechanism", "INCONCLUSIVE"))]
     return p.returncode, round(time.time() - t0, 1), lines[:4]
 
 
